@@ -8,7 +8,6 @@ Import ListNotations.
 Record refines (h : change -> list change) : Prop := {
   rf_add : forall t fks, h (AddTable t fks) = [AddTable t fks];
   rf_drop : forall t fks, h (DropTable t fks) = [DropTable t fks];
-  rf_obj : forall x, is_obj x = true -> h x = [x];
   rf_mod : forall t tcs y, In y (h (ModifyTable t tcs)) ->
     exists tcs', y = ModifyTable t tcs' /\
       forall f, In f (flat_map tc_added tcs') -> In f (flat_map tc_added tcs);
@@ -24,7 +23,7 @@ Section Transfer.
 
   Lemma h_adds x : flat_map adds (h x) = adds x.
   Proof.
-    destruct x as [t fks|t fks|t tcs|o|o]; try (rewrite (rf_obj h Hh) by reflexivity; reflexivity).
+    destruct x as [t fks|t fks|t tcs].
     - rewrite (rf_add h Hh). reflexivity.
     - rewrite (rf_drop h Hh). reflexivity.
     - simpl. assert (Hall : forall y, In y (h (ModifyTable t tcs)) -> adds y = []).
@@ -35,7 +34,7 @@ Section Transfer.
 
   Lemma h_drops x : flat_map drops (h x) = drops x.
   Proof.
-    destruct x as [t fks|t fks|t tcs|o|o]; try (rewrite (rf_obj h Hh) by reflexivity; reflexivity).
+    destruct x as [t fks|t fks|t tcs].
     - rewrite (rf_add h Hh). reflexivity.
     - rewrite (rf_drop h Hh). reflexivity.
     - simpl. assert (Hall : forall y, In y (h (ModifyTable t tcs)) -> drops y = []).
@@ -52,7 +51,7 @@ Section Transfer.
 
   Lemma h_keys x : Permutation (flat_map rm_keys (h x)) (rm_keys x).
   Proof.
-    destruct x as [t fks|t fks|t tcs|o|o]; try (rewrite (rf_obj h Hh) by reflexivity; apply Permutation_refl).
+    destruct x as [t fks|t fks|t tcs].
     - rewrite (rf_add h Hh). apply Permutation_refl.
     - rewrite (rf_drop h Hh). apply Permutation_refl.
     - apply (rf_keys h Hh).
@@ -66,8 +65,7 @@ Section Transfer.
 
   Lemma h_added x y f : In y (h x) -> In f (added_fks y) -> In f (added_fks x).
   Proof.
-    destruct x as [t fks|t fks|t tcs|o|o]; intros Hy Hf;
-      try (rewrite (rf_obj h Hh) in Hy by reflexivity; destruct Hy as [<-|[]]; exact Hf).
+    destruct x as [t fks|t fks|t tcs]; intros Hy Hf.
     - rewrite (rf_add h Hh) in Hy. destruct Hy as [<-|[]]. exact Hf.
     - rewrite (rf_drop h Hh) in Hy. destruct Hy as [<-|[]]. exact Hf.
     - destruct (rf_mod h Hh t tcs y Hy) as [tcs' [-> Hsub]]. simpl in *. apply Hsub. exact Hf.
@@ -90,7 +88,7 @@ Section Transfer.
 
   Lemma h_removes x child s : removes child s x = true -> exists y, In y (h x) /\ removes child s y = true.
   Proof.
-    destruct x as [t fks|t fks|t tcs|o|o]; simpl; intros H; try discriminate.
+    destruct x as [t fks|t fks|t tcs]; simpl; intros H; [discriminate| |].
     - exists (DropTable t fks). rewrite (rf_drop h Hh). split; [left; reflexivity|exact H].
     - apply andb_true_iff in H. destruct H as [H1 H2].
       destruct (rf_rm h Hh t tcs s H2) as [tcs' [Hin Hr]].
@@ -112,13 +110,12 @@ Section Transfer.
       destruct (so_fk l c H pre x post f El (h_added x y f Hy Hf)) as [H1|[H1|H1]].
       + left. exact H1.
       + right. left. rewrite Ep, flat_map_app, fm_adds. apply in_or_app. left. exact H1.
-      + right. right. destruct x as [t fks|t fks|t tcs|o|o]; simpl in H1; try discriminate.
+      + right. right. destruct x as [t fks|t fks|t tcs]; simpl in H1; try discriminate.
         rewrite (rf_add h Hh) in Hy. destruct Hy as [<-|[]]. exact H1.
     - intros pre' t tcs' post' E.
       destruct (flat_map_split h l pre' _ post' E) as [pre [x [post [p1 [p2 [El [Ex [Ep _]]]]]]]].
       assert (Hy : In (ModifyTable t tcs') (h x)) by (rewrite Ex; apply in_or_app; right; left; reflexivity).
-      destruct x as [t0 fks|t0 fks|t0 tcs|o|o];
-        try (rewrite (rf_obj h Hh) in Hy by reflexivity; destruct Hy as [Hy|[]]; discriminate).
+      destruct x as [t0 fks|t0 fks|t0 tcs].
       + rewrite (rf_add h Hh) in Hy. destruct Hy as [Hy|[]]. discriminate.
       + rewrite (rf_drop h Hh) in Hy. destruct Hy as [Hy|[]]. discriminate.
       + destruct (h_mod_prefix t0 tcs p1 _ p2 Ex) as [Ha [Hd [tcs'' Et]]]. inversion Et; subst t0.
@@ -127,8 +124,7 @@ Section Transfer.
     - intros pre' p fks post' e E He Hp Hne.
       destruct (flat_map_split h l pre' _ post' E) as [pre [x [post [p1 [p2 [El [Ex [Ep _]]]]]]]].
       assert (Hy : In (DropTable p fks) (h x)) by (rewrite Ex; apply in_or_app; right; left; reflexivity).
-      destruct x as [t0 fks0|t0 fks0|t0 tcs|o|o];
-        try (rewrite (rf_obj h Hh) in Hy by reflexivity; destruct Hy as [Hy|[]]; discriminate).
+      destruct x as [t0 fks0|t0 fks0|t0 tcs].
       + rewrite (rf_add h Hh) in Hy. destruct Hy as [Hy|[]]. discriminate.
       + rewrite (rf_drop h Hh) in Hy. destruct Hy as [Hy|[]]. inversion Hy; subst t0 fks0.
         destruct (so_drop l c H pre p fks post e El He Hp Hne) as [y0 [Hy0 Hrm]].
@@ -146,7 +142,6 @@ Proof.
   constructor.
   - reflexivity.
   - reflexivity.
-  - intros x Hx. destruct x; try discriminate; reflexivity.
   - intros t tcs y Hy. simpl in Hy. apply in_app_or in Hy. destruct Hy as [Hy|Hy].
     + destruct (flat_map _ tcs) as [|a g0] eqn:E in Hy; [destruct Hy|]. destruct Hy as [<-|[]].
       eexists. split; [reflexivity|]. intros f Hf. exfalso. rewrite <- E in Hf.
@@ -159,7 +154,7 @@ Proof.
       destruct Htc as [tc0 [<- Htc]]. apply in_flat_map. exists tc0. split; [exact Htc|].
       destruct tc0; simpl in *; exact Hf.
   - intros t tcs s H. apply existsb_exists in H. destruct H as [tc [Htc Hr]].
-    destruct tc as [f|f|from to|k|kd e0]; simpl in Hr; try discriminate.
+    destruct tc as [f|f|from to|k]; simpl in Hr; try discriminate.
     + (* DropFK stays in the second ALTER *)
       set (g1 := map (fun c => match c with ModifyFK _ to => AddFK to | c => c end) tcs).
       assert (Hin : In (DropFK f) g1) by (apply in_map_iff; exists (DropFK f); split; [reflexivity|exact Htc]).
@@ -184,11 +179,10 @@ Proof.
     { destruct g1; [reflexivity|]. simpl. rewrite app_nil_r. reflexivity. }
     rewrite flat_map_app, E0, E1, <- map_app. apply Permutation_map.
     unfold g0, g1. clear. induction tcs as [|tc tcs IH]; simpl; [constructor|].
-    destruct tc as [f|f|from to|k|kd e0]; simpl.
+    destruct tc as [f|f|from to|k]; simpl.
     + exact IH.
     + apply Permutation_sym. apply Permutation_cons_app. apply Permutation_sym. exact IH.
     + constructor. exact IH.
-    + exact IH.
     + exact IH.
 Qed.
 
@@ -197,7 +191,6 @@ Proof.
   constructor.
   - reflexivity.
   - reflexivity.
-  - intros x Hx. destruct x; try discriminate; reflexivity.
   - intros t tcs y Hy. simpl in Hy.
     set (alter := flat_map (fun c => match c with ModifyFK from to => [DropFK from; AddFK to] | c => [c] end) tcs) in *.
     destruct alter as [|a al] eqn:E; [destruct Hy|]. destruct Hy as [<-|[]]. rewrite <- E.
@@ -212,7 +205,7 @@ Proof.
   - intros t tcs s H. apply existsb_exists in H. destruct H as [tc [Htc Hr]].
     set (alter := flat_map (fun c => match c with ModifyFK from to => [DropFK from; AddFK to] | c => [c] end) tcs).
     assert (Hex : exists g, In (DropFK g) alter /\ f_sym g = s).
-    { destruct tc as [f|f|from to|k|kd e0]; simpl in Hr; try discriminate; apply Nat.eqb_eq in Hr.
+    { destruct tc as [f|f|from to|k]; simpl in Hr; try discriminate; apply Nat.eqb_eq in Hr.
       - exists f. split; [|exact Hr]. apply in_flat_map. exists (DropFK f). split; [exact Htc|left; reflexivity].
       - exists from. split; [|exact Hr]. apply in_flat_map. exists (ModifyFK from to). split; [exact Htc|left; reflexivity]. }
     destruct Hex as [g [Hg Hs]].
@@ -225,7 +218,7 @@ Proof.
     set (alter := flat_map (fun c => match c with ModifyFK from to => [DropFK from; AddFK to] | c => [c] end) tcs).
     assert (Ea : Permutation (flat_map tc_rm alter) (flat_map tc_rm tcs)).
     { unfold alter. clear. induction tcs as [|tc tcs IH]; simpl; [constructor|].
-      destruct tc as [f|f|from to|k|kd e0]; simpl; try exact IH; constructor; exact IH. }
+      destruct tc as [f|f|from to|k]; simpl; try exact IH; constructor; exact IH. }
     destruct alter as [|a al] eqn:E.
     + simpl in *. apply Permutation_nil in Ea. rewrite Ea. constructor.
     + rewrite <- E in *. simpl. rewrite app_nil_r. apply Permutation_map.
